@@ -12,6 +12,14 @@ CHECKS = {
    text="Generated (algorithm, length, content, partition, key/salt/output length) cases; every streaming, one-shot and generic-dispatch interface must equal the OpenSSL/Python reference, including 2^29+delta byte messages. Exploration over a boundary-biased input space; not exhaustive.",
    note="Trusted: OpenSSL 3 (hashlib/hmac/pbkdf2_hmac), the small Python HKDF/KDF models. Builds: default and ENABLE_SMALL_FOOTPRINT (ASan), plain -O2 for long messages. SIMD variants that do not compile on this image are not covered.",
    design="4/C03"),
+ "C01": dict(level="exploration", technique="property-based testing (Hypothesis) with scripted entropy: signer checked against the GB/T 32918.2 equations via nonce recovery, verifier differential against a Python model (strict DER + range + equation) on constructed accept/reject candidates",
+   text="Generated keys/IDs/messages/chunkings/nonces through every signing interface; every emitted signature must satisfy the standard's equations for the recovered nonce and verify everywhere. Constructed candidates (boundary r/s, solved-for keys, infinity case, bit flips, DER mutants) must get the model's verdict on every verification interface. Exploration only.",
+   note="Trusted: vlib/ref/sm2.py + sigder.py, OpenSSL SM3. The 2^-256 retry branches of the hashing context interface are out of reach.",
+   design="4/C01"),
+ "C02": dict(level="exploration", technique="property-based testing (Hypothesis) with scripted entropy: library ciphertexts decrypted by an independent GB/T 32918.4 model, model ciphertexts decrypted by the library, decision agreement on constructed malformed candidates, ECDH vs [dA dB]G",
+   text="Generated keys/plaintexts/nonces through all encryption interfaces and all decryptors; constructed candidates (bit flips, bad C1/C2/C3, DER mutants) must get the model's verdict. Exploration only.",
+   note="Trusted: vlib/ref/sm2.py + sigder.py. 'Equals the GB/T value for the nonce drawn' is decided through the private key unless the scripted nonce was observed.",
+   design="4/C02"),
 }
 
 NOT_YET = {
